@@ -20,7 +20,7 @@ CACHE = ["cold", "warm"]
 BMAX = [10000, 3, 4, 6]
 REF = (1, 0, "cold", 10000)
 DIMS = ("ml", "mepc", "cache", "bmax")
-STEP_LIMIT = 6000       # runiter_once rounds; the programs execute < 1000 instructions
+STEP_LIMIT = 4000       # runiter_once rounds; the programs execute < 1000 instructions
 
 ARCHS = ["x86_32", "x86_64", "arml", "aarch64l", "mips32l", "mips32b", "ppc32b", "msp430"]
 FUNCS = ["arr_loop", "loop_cond", "nested", "switch4"]
@@ -141,6 +141,13 @@ def judge_program(lab, prog, backend, cfgs, res=None, minimise=True, skip=None, 
         return []
     fails = []
     seen_kinds = set()
+    if ref["term"][:2] == ("ret", "step-limit"):
+        # the reference itself runs away (MIPS delay-slot finding): one comparison with the default configuration
+        # is enough to report it; the other configurations would each burn the whole step budget
+        keep = [c for c in cfgs if c[0] == 50][:1] or list(cfgs)[:1]
+        if res is not None:
+            res.dropped["not-run:reference-hit-step-limit"] += len(cfgs) - len(keep)
+        cfgs = keep
     for cfg in cfgs:
         if skip and cfg in skip:
             if res is not None:
@@ -209,7 +216,7 @@ class C21(Check):
                    "the code page untouched (rewriting code legitimately invalidates translations)",
                    "programs whose reference run raises a non-jitter Python exception (unsupported instruction) "
                    "are dropped",
-                   "a run is cut after 6000 runiter_once rounds ('step-limit' termination, a deterministic "
+                   "a run is cut after 4000 runiter_once rounds ('step-limit' termination, a deterministic "
                    "observation); configurations on which the python backend hit that limit are not run on gcc"]
     level_text = ("metamorphic testing: each configuration of block length, per-call limit, cache warmth and cache "
                   "size against the single-instruction-block reference of the same backend")
